@@ -25,6 +25,29 @@ def _native(fn):
         return dict(observed='%s: %s' % (type(ex).__name__, ex))
 
 
+def replay_wiring(obligation):
+    """native re-evaluation of a wiring clause for ./check --replay (the same concrete calls the refuters make)"""
+    import geodepy.constants as C, geodepy.coord as cd, geodepy.convert as cv
+    F = cd.float if 'float' in cd.__dict__ else float
+    tests = {
+        'CoordGeo.tm': lambda: (cd.CoordGeo(-33.0, 151.0).tm(C.ans, C.isg), cv.geo2grid(-33.0, 151.0, 0, C.ans, C.isg), lambda t, g: abs(t.east - g[2]) < 1e-3 and abs(t.north - g[3]) < 1e-3),
+        'CoordCart.tm': lambda: (cd.CoordCart(*cv.llh2xyz(-33.0, 151.0, 50.0, C.ans)).tm(C.ans, C.utm), cv.geo2grid(-33.0, 151.0, 0, C.ans, C.utm), lambda t, g: abs(t.east - g[2]) < 1e-3 and abs(t.north - g[3]) < 1e-3),
+        'CoordTM.geo': lambda: (cd.CoordTM(551, 300000.0, 1348000.0, projection=C.isg).geo(C.ans, F), cv.grid2geo(551, 300000.0, 1348000.0, 'south', C.ans, C.isg), lambda g, r: abs(float(g.lat) - r[0]) < 1e-9 and abs(float(g.lon) - r[1]) < 1e-9),
+        'CoordGeo.cart': lambda: (cd.CoordGeo(-33.0, 151.0).cart(C.ans), cv.llh2xyz(-33.0, 151.0, 0, C.ans), lambda c, r: max(abs(a - b) for a, b in zip((c.xaxis, c.yaxis, c.zaxis), r)) < 1e-6),
+        'CoordGeo.cart#h': lambda: (cd.CoordGeo(-33.0, 151.0, 80.0).cart(C.ans), cv.llh2xyz(-33.0, 151.0, 80.0, C.ans), lambda c, r: max(abs(a - b) for a, b in zip((c.xaxis, c.yaxis, c.zaxis), r)) < 1e-6),
+        'CoordCart.geo': lambda: (cd.CoordCart(-4052051.0, 4212836.0, -2545106.0).geo(C.ans, F), cv.xyz2llh(-4052051.0, 4212836.0, -2545106.0, C.ans), lambda g, r: abs(float(g.lat) - r[0]) < 1e-9 and abs(g.ell_ht - r[2]) < 1e-4),
+    }
+    for k, t in tests.items():
+        if obligation.startswith(k.split('#')[0]):
+            try:
+                a, b, ok = t()
+            except Exception as ex:
+                return dict(clause=k, observed='%s: %s' % (type(ex).__name__, ex))
+            if not ok(a, b):
+                return dict(clause=k, observed=str(getattr(a, '__dict__', a))[:300], expected=str(b)[:300])
+    return None
+
+
 def wiring(P, mods, ell, prj, which):
     C, cd, cv = mods['geodepy.constants'], mods['geodepy.coord'], mods['geodepy.convert']
     F = cd.float
@@ -84,17 +107,19 @@ def wiring(P, mods, ell, prj, which):
                          cd.CoordTM(551, 300000.0, 1348000.0, projection=C.isg).geo(C.ans, F), cv.grid2geo(551, 300000.0, 1348000.0, 'south', C.ans, C.isg))),
                      note='lat/lon are grid2geo(zone, east, north, hemisphere of the object, ellipsoid, projection of the object)')
     if 'CoordGeo.cart' in which:
-        pth = run(lambda: cd.CoordGeo(la, lo, eh, oh).cart(ell), 'coord.CoordGeo.cart')
-        ok = len(pth) >= 1 and all(p['kind'] == 'ret' for p in pth)
-        if ok:
-            c = R['llh2xyz'].calls[-1]
-            cc = pth[-1]['val']
-            ok = all(eq(u, v) for u, v in zip(c['args'], [la.t, lo.t, eh.t] + L.ell_flat(ell))) and eq(cc.xaxis, c['outs'][0]) and eq(cc.yaxis, c['outs'][1]) and eq(cc.zaxis, c['outs'][2])
-        P.oblige('CoordGeo.cart.wiring', 'coord.CoordGeo.cart', 'all', dict(result='discharged' if ok else 'sat', backend=be, ms=0, model=None), strict=True, pool=[{}],
-                 refute=lambda w: _native(lambda: (lambda c_, r_: None if max(abs(a - b) for a, b in zip((c_.xaxis, c_.yaxis, c_.zaxis), r_)) < 1e-6 else dict(
-                     call='CoordGeo(-33.0, 151.0, 80.0).cart(ans) vs llh2xyz(-33.0, 151.0, 80.0, ans)', observed=(c_.xaxis, c_.yaxis, c_.zaxis), expected=r_))(
-                     cd.CoordGeo(-33.0, 151.0, 80.0).cart(C.ans), cv.llh2xyz(-33.0, 151.0, 80.0, C.ans))),
-                 note='x, y, z are llh2xyz(lat, lon, ell_ht, ellipsoid) for the ellipsoid given to the method')
+        for ehv, ohv, tag in ((eh, oh, 'both heights'), (eh, None, 'ellipsoidal height only'), (None, oh, 'orthometric height only'), (None, None, 'no height')):
+            pth = run(lambda: cd.CoordGeo(la, lo, ehv, ohv).cart(ell), 'coord.CoordGeo.cart')
+            ok = len(pth) >= 1 and all(p['kind'] == 'ret' for p in pth)
+            if ok:
+                c = R['llh2xyz'].calls[-1]
+                cc = pth[-1]['val']
+                hh = eh.t if ehv is not None else z3.RealVal(0)
+                ok = len(c['args']) == 5 and all(eq(u, v) for u, v in zip(c['args'], [la.t, lo.t, hh] + L.ell_flat(ell))) and eq(cc.xaxis, c['outs'][0]) and eq(cc.yaxis, c['outs'][1]) and eq(cc.zaxis, c['outs'][2])
+            P.oblige('CoordGeo.cart.wiring', 'coord.CoordGeo.cart', tag, dict(result='discharged' if ok else 'sat', backend=be, ms=0, model=None), strict=True, pool=[{}],
+                     refute=lambda w, ehv=ehv: _native(lambda: (lambda c_, r_: None if max(abs(a - b) for a, b in zip((c_.xaxis, c_.yaxis, c_.zaxis), r_)) < 1e-6 else dict(
+                         call='CoordGeo(-33.0, 151.0%s).cart(ans) vs llh2xyz(-33.0, 151.0, %s, ans)' % ((', 80.0', '80.0') if ehv is not None else ('', '0')), observed=(c_.xaxis, c_.yaxis, c_.zaxis), expected=r_))(
+                         (cd.CoordGeo(-33.0, 151.0, 80.0) if ehv is not None else cd.CoordGeo(-33.0, 151.0)).cart(C.ans), cv.llh2xyz(-33.0, 151.0, 80.0 if ehv is not None else 0, C.ans))),
+                     note='x, y, z are llh2xyz(lat, lon, ell_ht or 0, ellipsoid) for the ellipsoid given to the method, whichever heights the object carries')
     if 'CoordCart.geo' in which:
         pth = run(lambda: cd.CoordCart(x, y, z, n).geo(ell, F), 'coord.CoordCart.geo')
         ok = len(pth) >= 1 and all(p['kind'] == 'ret' for p in pth)
